@@ -944,7 +944,13 @@ func (rule *RuleExpression) checkMatrix(m *Matrix) *ObjectType {
 				continue
 			}
 			if merged, ok := o.Merge(ty).(*ObjectType); ok {
-				o = merged
+				// Merge may return the given type itself (e.g. the shared type of `github.event`).
+				// Copy it since properties are added to the object at the following elements
+				props := make(map[string]ExprType, len(merged.Props))
+				for n, p := range merged.Props {
+					props[n] = p
+				}
+				o = &ObjectType{Props: props, Mapped: merged.Mapped}
 			} else {
 				o.Loose()
 			}
